@@ -44,12 +44,14 @@ FLOORS = {'quick': {'histories': 530, 'serve_histories': 390, 'seed_histories': 
                     'fresh_served_from_cache': 9300, 'failed_refresh_kept_old': 920, 'refreshed_after_recovery': 340,
                     'boundary_dont_care': 1450, 'threshold_changes': 620, 'seed_stale_refetched': 1240,
                     'seed_fresh_untouched': 6900, 'seed_failed_refresh_kept_old': 95, 'stale_served_on_error': 55,
-                    'linked_histories': 18, 'linked_tile_judgements': 170},
+                    'linked_histories': 18, 'linked_tile_judgements': 170, 'cache_source_histories': 20,
+                    'stored_timestamp_of_new_tile_checked': 2000},
           'thorough': {'histories': 8500, 'serve_histories': 6500, 'seed_histories': 1900, 'seed_tasks': 4500,
                        'stale_refetched': 45000, 'fresh_served_from_cache': 137000, 'failed_refresh_kept_old': 15800,
                        'refreshed_after_recovery': 6000, 'boundary_dont_care': 22000, 'threshold_changes': 10700,
                        'seed_stale_refetched': 17600, 'seed_fresh_untouched': 96000, 'seed_failed_refresh_kept_old': 1400,
-                       'stale_served_on_error': 850, 'linked_histories': 300, 'linked_tile_judgements': 2800}}
+                       'stale_served_on_error': 850, 'linked_histories': 300, 'linked_tile_judgements': 2800,
+                       'cache_source_histories': 400, 'stored_timestamp_of_new_tile_checked': 30000}}
 RULE = ("case = one history on one generated configuration (backend file tc/tms/mp | sqlite; meta 1x1, 2x2, 3x2, +-buffer, "
         "bulk meta tiles, minimize_meta_requests; source wms | tile; rule kind time string / YAML timestamp / mtime file / "
         "relative age; time zone). serving history = fill, then 3-6 rounds of {stamp tiles at threshold+delta, delta in "
@@ -781,7 +783,9 @@ def run_serve(run, case, spec, ops, d):
                 raise RuntimeError('model and cache disagree about presence of %r before step %d' % (t, idx))
         n0 = w.up.n
         w.up.reset_log()
+        t_req0 = time.time()
         imgs, err = request(w, op)
+        t_req1 = time.time()
         if not quiesce():
             run.dc('helper_threads_still_running_after_request')
             return
@@ -943,6 +947,13 @@ def run_serve(run, case, spec, ops, d):
             if t in cover and e != epoch and t in tiles and pre.get(t) in ('stale', 'missing'):
                 J.bad('tile %r was refetched (epoch %d) but the cache holds epoch %r afterwards' % (t, epoch, e),
                       clause='refetched_not_stored')
+                return
+            # a tile written by this request was written NOW: its stored timestamp is the time of this request (sqlite keeps
+            # whole seconds), whatever timestamps the objects involved carried before
+            run.hit('stored_timestamp_of_new_tile_checked')
+            if not (t_req0 - 2.0 <= rw[1] <= t_req1 + 2.0):
+                J.bad('tile %r was (re)written by this request (between %.3f and %.3f) but is stored with timestamp %.3f (%+.1f s)' % (
+                    t, t_req0, t_req1, rw[1], rw[1] - t_req1), clause='stored_timestamp_is_not_the_time_of_writing', via=op['via'])
                 return
             model[t] = {'ts': rw[1], 'epoch': e, 'd': 'written_now', 'hash': h}
             pending_recover.discard(t)
@@ -1253,6 +1264,8 @@ def gen_cases(run):
     for i in range(n):
         if i % 20 == 7:
             yield {'i': i, 'mode': 'linked'}
+        if i % 20 == 13:
+            yield {'i': i, 'mode': 'cache_source'}
         yield {'i': i, 'mode': 'seed' if i % 4 == 3 else 'serve'}
 
 
@@ -1263,6 +1276,144 @@ def gen_cases(run):
 # ---------------------------------------------------------------------------------------------------------------------
 
 LINK_COLOURS = [(10, 200, 30), (200, 40, 40), (30, 60, 220), (240, 240, 20)]
+
+
+def run_cache_source(run, case, d):
+    """a cache fed by another cache (same grid, tiles handed over one to one): the 'upstream' of the refreshing cache is the
+    base cache. Observed: calls into the base cache's tile manager and the stored timestamp of the refreshing cache's tile.
+    A tile re-created now is stored with the time of writing, whatever age the base cache's tile has, and is then fresh."""
+    import io as _io
+    from PIL import Image
+    from mapproxy.cache.tile import Tile
+    rng = run.rng('cachesrc', case['i'])
+    backend = rng.choice(['sqlite', 'sqlite', 'file'])
+    via = rng.choice(['tms', 'tm'])
+    tz = rng.choice(['UTC', 'Europe/Berlin', 'America/St_Johns', 'Asia/Kolkata'])
+    up = upstream.install()
+    up.faults.clear()
+    up.reset_log()
+    state = {'epoch': 0}
+
+    def pic(call):
+        try:
+            w, h = int(call.params.get('width', 64)), int(call.params.get('height', 64))
+        except ValueError:
+            w, h = 64, 64
+        b = _io.BytesIO()
+        im = Image.new('RGB', (max(1, min(w, 1024)), max(1, min(h, 1024))), LINK_COLOURS[state['epoch'] % len(LINK_COLOURS)])
+        im.putpixel((1, 1), (1, 2, 3))      # not single coloured
+        im.save(b, 'PNG')
+        return upstream.Resp(b.getvalue(), 'image/png')
+    up.register('flat', pic)
+    with timezone(tz):
+        now = int(time.time())
+        T0 = now - 30 * 86400
+        while not stable_offset(T0, tz):
+            T0 -= 3 * 86400
+        conf = scenario.base_conf()
+        conf['grids']['g'] = {'srs': 'EPSG:3857', 'bbox': [-20037508.342789244, -20037508.342789244, 20037508.342789244, 20037508.342789244],
+                              'tile_size': [64, 64], 'num_levels': 4, 'origin': 'll'}
+        conf['sources']['src'] = {'type': 'wms', 'req': {'url': 'http://flat/service?', 'layers': 'a'}, 'supported_srs': ['EPSG:3857']}
+        conf['caches']['b'] = {'grids': ['g'], 'sources': ['src'], 'format': 'image/png', 'request_format': 'image/png',
+                               'meta_size': [1, 1], 'meta_buffer': 0, 'cache': {'type': 'file', 'directory_layout': 'tc'}}
+        conf['caches']['c'] = {'grids': ['g'], 'sources': ['b'], 'format': 'image/png', 'request_format': 'image/png',
+                               'meta_size': [1, 1], 'meta_buffer': 0,
+                               'cache': {'type': 'sqlite'} if backend == 'sqlite' else {'type': 'file', 'directory_layout': 'tc'},
+                               'refresh_before': {'time': local_str(T0, tz, 'T')}}
+        conf['layers'] = [{'name': 'l', 'title': 'l', 'sources': ['c']}]
+        conf['services'] = {'tms': {}}
+        sc = scenario.Scenario(d, conf)
+        tmc = sc.tile_manager('c')
+        tmb = sc.tile_manager('b')
+        base_calls = []
+        real_load = tmb.load_tile_coords
+
+        def load_tile_coords(*a, **kw):
+            base_calls.append(1)
+            return real_load(*a, **kw)
+        tmb.load_tile_coords = load_tile_coords
+        A = (rng.randrange(4), rng.randrange(4), 2)
+        hist = []
+        mech0 = {'mode': 'cache_source', 'backend': backend, 'via': via}
+
+        def stored_ts():
+            if backend == 'sqlite':
+                p_ = os.path.join(tmc.cache.cache_dir, '%d.mbtile' % A[2])
+                con = sqlite3.connect(p_, timeout=20)
+                try:
+                    row = con.execute('SELECT last_modified FROM tiles WHERE tile_column=? AND tile_row=? AND zoom_level=?', A).fetchone()
+                finally:
+                    con.close()
+                return parse_local(row[0], tz) if row else None
+            try:
+                return os.lstat(tmc.cache.tile_location(Tile(A))).st_mtime
+            except OSError:
+                if os.environ.get('C13_DEBUG'):
+                    print('no file at', tmc.cache.tile_location(Tile(A)), [os.path.join(r, f) for r, _, fs in os.walk(d) for f in fs][:20])
+                return None
+
+        def stamp_old():
+            ts = T0 - 3600
+            p_b = tmb.cache.tile_location(Tile(A))
+            os.utime(p_b, (ts, ts))
+            if backend == 'sqlite':
+                con = sqlite3.connect(os.path.join(tmc.cache.cache_dir, '%d.mbtile' % A[2]), timeout=20)
+                try:
+                    con.execute('UPDATE tiles SET last_modified=? WHERE tile_column=? AND tile_row=? AND zoom_level=?',
+                                (local_str(ts, tz),) + A)
+                    con.commit()
+                finally:
+                    con.close()
+            else:
+                os.utime(tmc.cache.tile_location(Tile(A)), (ts, ts))
+
+        def ask(label):
+            n0 = len(base_calls)
+            t0 = time.time()
+            if via == 'tms':
+                r = sc.get('/tiles/l/EPSG3857/%d/%d/%d.png' % (A[2], A[0], A[1]))      # (/tms shifts the levels of global grids)
+                ok = r.code == 200
+            else:
+                coll = tmc.load_tile_coords([A], with_metadata=True)
+                ok = coll[A].source is not None
+            t1 = time.time()
+            n = len(base_calls) - n0
+            ts = stored_ts()
+            hist.append('%s -> %s, %d calls into the base cache, stored timestamp %s' % (label, 'ok' if ok else 'FAILED', n, ts))
+            return ok, n, ts, t0, t1
+
+        def expect(label, got, want_calls, written, clause):
+            ok, n, ts, t0, t1 = got
+            run.judge(('cache_source', backend, via, clause), nontrivial=True)
+            run.hit('cache_source_judgements')
+            bad = None
+            if not ok:
+                bad = 'request_failed'
+            elif want_calls == 0 and n != 0:
+                bad = 'fresh_refetched'
+            elif want_calls > 0 and n == 0:
+                bad = 'stale_served'
+            elif written and (ts is None or not (t0 - 2.0 <= ts <= t1 + 2.0)):
+                bad = 'stored_timestamp_is_not_the_time_of_writing'
+            if bad:
+                run.violation(dict(mech0, clause=bad, step=clause), case,
+                              'cache fed by a cache (%s, via %s, tz %s): step %s: expected %s calls into the base cache%s; observed %d calls, '
+                              'stored timestamp %r, request between %.1f and %.1f | threshold %d | history: %s' % (
+                                  backend, via, tz, label, 'no' if want_calls == 0 else 'some',
+                                  ' and a stored timestamp of now' if written else '', n, ts, t0, t1, T0, ' ; '.join(hist)))
+                return False
+            return True
+        if not expect('fill', ask('fill'), 1, True, 'fill'):
+            return
+        if not expect('repeat', ask('repeat'), 0, False, 'fresh'):
+            return
+        stamp_old()
+        hist.append('tile of the base cache and tile of the refreshing cache stamped threshold-3600')
+        if not expect('stale', ask('stale'), 1, True, 'refresh_from_old_base_tile'):
+            return
+        if not expect('repeat after refresh', ask('repeat after refresh'), 0, False, 'fresh_after_refresh_from_old_base_tile'):
+            return
+        run.hit('cache_source_histories')
 
 
 def run_linked(run, case, d):
@@ -1390,15 +1541,15 @@ def run_linked(run, case, d):
 def run_case(run, case):
     rng = run.rng('case', case['i'])
     mode = case['mode']
-    spec = case.get('spec') or (gen_spec(rng, mode) if mode != 'linked' else None)
+    spec = case.get('spec') or (gen_spec(rng, mode) if mode not in ('linked', 'cache_source') else None)
     ops = case.get('ops')
-    if ops is None and mode != 'linked':
+    if ops is None and mode not in ('linked', 'cache_source'):
         ops = gen_serve_ops(rng, spec) if mode == 'serve' else gen_seed_ops(rng, spec)
     d = run.subdir('c13')
     up = upstream.install()
-    if mode == 'linked':
+    if mode in ('linked', 'cache_source'):
         try:
-            run_linked(run, case, d)
+            (run_linked if mode == 'linked' else run_cache_source)(run, case, d)
         finally:
             up.faults.clear()
             shutil.rmtree(d, ignore_errors=True)
